@@ -314,9 +314,10 @@ class DistributedRateLimiter(Entity):
                 self._global_limit,
             )
 
-            # Create forwarding event to downstream entity
+            # Create forwarding event to downstream entity.  The store round trips above
+            # took simulated time: stamp the event with the current clock, not the arrival time.
             forward_event = Event(
-                time=now,
+                time=self._clock.now if self._clock is not None else now,
                 event_type=f"forward::{event.event_type}",
                 target=self._downstream,
                 context=event.context.copy(),
